@@ -3,7 +3,7 @@
    indices are "valid" (read only indices where the input is known to be affine, inside the image), and the index map of
    a step.  Definitions only. *)
 From Coq Require Import ZArith List Bool.
-From DV Require Import Base.Field Base.LinAlg Model.Enums Model.Sampler Model.ImageOps.
+From DV Require Import Base.Field Base.LinAlg Model.Enums Model.Sampler Model.ImageOps Gen.GridT.
 Import ListNotations.
 Local Open Scope fld_scope.
 
@@ -72,3 +72,24 @@ Definition affine_on (D : nat) (im : nimg (K:=K)) (ab : list K * K) (V : list Z 
   length (fst ab) = D /\ length (ishape im) = D /\
   forall J, length J = D -> V J -> in_box (ishape im) J = true /\ ival im J = aff (fst ab) (snd ab) J.
 End Chain.
+
+Section ChainWorld.
+Context {K : fld}.
+(* the grid (N', S', C', same direction Dm) is in lock-step with the grid (N, S, C, Dm) along the chain l: it puts every
+   (continuous) index X where the old grid puts the chain's source index of X *)
+Definition lock (D : nat) (N S C : list K) (Dm : list (list K)) (N' S' C' : list K) (l : list (axstep (K:=K))) : Prop :=
+  forall X, length X = D ->
+  Gen.GridT.gen_pts D Model.Enums.GRID Model.Enums.WORLD N' S' C' Dm X
+  = Gen.GridT.gen_pts D Model.Enums.GRID Model.Enums.WORLD N S C Dm (steps_phi l X).
+(* per-axis steps of the concrete operations (axis 0 = x first) *)
+Definition rsz_coef (ac : bool) (n m : K) : K * K :=
+  if ac then ((n - 1) / (m - 1), 0) else (n / m, n / ((1 + 1) * m) - 1 / (1 + 1)).
+Definition resize_steps (D : nat) (ac : bool) (n m : nat -> Z) : list (axstep (K:=K)) :=
+  map (fun k => let '(al, be) := rsz_coef ac (of_Z (n k)) (of_Z (m k)) in SInterp PBorder k al be (m k)) (seq 0 D).
+Definition rsm_coef (n m s s' : K) : K * K := (s' / s, (n - 1) / (1 + 1) - (m - 1) / (1 + 1) * s' / s).
+Definition resample_steps (D : nat) (n m : nat -> Z) (s s' : nat -> K) : list (axstep (K:=K)) :=
+  map (fun k => let '(al, be) := rsm_coef (of_Z (n k)) (of_Z (m k)) (s k) (s' k) in SInterp PZeros k al be (m k)) (seq 0 D).
+Definition crop_steps (D : nat) (c : K) (lo hi : nat -> Z) : list (axstep (K:=K)) :=
+  map (fun k => SCrop c k (lo k) (hi k)) (seq 0 D).
+Definition pool_steps (D : nat) (ks : nat -> Z) : list (axstep (K:=K)) := map (fun k => SPool k (ks k)) (seq 0 D).
+End ChainWorld.
